@@ -48,8 +48,8 @@ impl C18 {
     pub fn new(tier: Tier, seed: u64) -> C18 {
         let alpha: Vec<char> = "()[],;.|\\$\"a-+".chars().collect();
         let short = all_strings(&alpha, 3);
-        let (c, m, r) = if tier == Tier::Quick { (30_000, 80_000, 40_000) } else { (400_000, 1_500_000, 600_000) };
-        C18 { seed, short, n_canon: c, n_mut: m, n_rand: r, n_nest: if tier == Tier::Quick { 6_000 } else { 60_000 } }
+        let (c, m, r) = if tier == Tier::Quick { (100_000, 300_000, 150_000) } else { (800_000, 3_000_000, 1_200_000) };
+        C18 { seed, short, n_canon: c, n_mut: m, n_rand: r, n_nest: if tier == Tier::Quick { 20_000 } else { 200_000 } }
     }
     pub fn canon_text(&self, r: &mut Rng) -> String {
         match r.below(9) {
